@@ -11,7 +11,7 @@
   An edit of such a condition in /repo changes the generated definition and breaks a theorem here
   (or makes the translator fail, which breaks the build of this module).
 
-  PROVED: every theorem in this file (no partial statements).
+  PROVED: every theorem in this file.
 -/
 import SalsaVerif.Proofs.GenLogicVerify
 
@@ -145,6 +145,31 @@ theorem genlogic_reexecuted_provisional (m : MemoIn) (rev : Nat) (h : m.mayBePro
 theorem genlogic_reexecuted_final (m : MemoIn) (rev : Nat) (h : m.mayBeProvisional = false) :
     reexecuted_changed m rev = decide (m.changedAt > rev) := by
   simp [reexecuted_changed, reexecuted_changed_at, h]
+
+/-- closed forms of the remaining generated conditions.  The engine models above are cycle-free
+    (`mayBeProvisional = false` throughout), so the role of `may_be_provisional()` in these
+    conditions is pinned here: a provisional memo never takes the hot path of `fetch` /
+    `maybe_changed_after`, is never deep-verified, and is never re-executed by
+    `maybe_changed_after_cold`. -/
+theorem genlogic_provisional_guards (m : MemoIn) (u rev : Nat) :
+    hot_applies m u = (ShallowUpdate.yes u && !m.mayBeProvisional) ∧
+    fetch_hot_applies m u = (ShallowUpdate.yes u && !m.mayBeProvisional) ∧
+    verify_shallow_applies m u = (ShallowUpdate.yes u && m.validateMayBeProvisional) ∧
+    deep_is_provisional m = m.mayBeProvisional ∧
+    cold_may_reexecute m = !m.mayBeProvisional ∧
+    cold_evicted m = !m.hasValue ∧
+    hot_changed m rev = decide (m.changedAt > rev) ∧
+    cold_verified_changed m rev = decide (m.changedAt > rev) := by
+  simp [hot_applies, fetch_hot_applies, verify_shallow_applies, deep_is_provisional,
+    cold_may_reexecute, cold_evicted, hot_changed, cold_verified_changed]
+
+theorem genlogic_panic_participant (m : MemoIn) (p : Bool) :
+    deep_panic_participant m p = (p && m.wasCycleParticipant) := by
+  simp [deep_panic_participant]
+
+theorem genlogic_fetch_cold_reuses (m : MemoIn) (verified : Bool) :
+    fetch_cold_reuses m verified = (m.hasValue && verified) := by
+  simp [fetch_cold_reuses]
 
 /-- `Core3.sokB` ("passes the shallow test") is `shallow_verify_memo(..).yes()` -/
 theorem genlogic_core3_sokB (s : Core3.State) (m : Core3.Memo) :
